@@ -3,6 +3,6 @@
 PROPS=$1; SEEDS=${2:-1}; shift; shift
 cd /verif
 for P in $PROPS; do for S in $SEEDS; do
-  VERIF_SEED=$S ./check $P --no-evidence "$@" > /tmp/quiet_$P_$S.log 2>&1; RC=$?
-  echo "$P seed=$S rc=$RC $(grep -E 'exit=' /tmp/quiet_$P_$S.log | tail -1) $(grep -E 'VIOLATION|HARNESS-ERROR' /tmp/quiet_$P_$S.log | head -1)"
+  VERIF_SEED=$S ./check $P --no-evidence "$@" > /tmp/quiet_${P}_${S}.log 2>&1; RC=$?
+  echo "$P seed=$S rc=$RC $(grep -E 'exit=' /tmp/quiet_${P}_${S}.log | tail -1) $(grep -E 'VIOLATION|HARNESS-ERROR' /tmp/quiet_${P}_${S}.log | head -1)"
 done; done
